@@ -1,6 +1,6 @@
 /* C05 harness: return-value handshake on the REAL runtime (public + internal API, no source edits).
  * stdin:
- *   V <kind a|s|n|v> <variant 0 fork|1 fork_to|2 copyargs|3 new_team|4 new_subteam> <shep> <prefull 0|1> <value u64>
+ *   V <kind a|s|n|v> <variant 0 fork|1 fork_to|2 copyargs|3 new_team|4 new_subteam|5 qthread_fork_copyargs_to (kind s)> <shep> <prefull 0|1> <value u64>
  *   N <id> <parent|-1> <kind t|u|m|s>      declare a node of a team tree (t: new team, u: subteam of the default team,
  *                                           m: member spawned by its parent into the parent's team, s: subteam founded by its parent)
  *   O <id> <id> ...                         run the tree, opening the members' gates in this order
@@ -54,8 +54,12 @@ static void case_v(char kind, int variant, int shep, int prefull, uint64_t value
     st[0] = STATUS();
     if (variant == 3) flags |= QTHREAD_SPAWN_NEW_TEAM;
     if (variant == 4) flags |= QTHREAD_SPAWN_NEW_SUBTEAM;
-    alarm(300);
-    int rc = qthread_spawn(body_v, variant == 2 ? (void *)argbuf : NULL, variant == 2 ? sizeof argbuf : 0, ret, 0, NULL,
+    alarm(getenv("C05_ALARM") ? atoi(getenv("C05_ALARM")) : 150);
+    int rc;
+    if (variant == 5)   /* the API function itself: declared with a syncvar_t *ret (kind must be s) */
+        rc = qthread_fork_copyargs_to(body_v, argbuf, sizeof argbuf, &sret, (qthread_shepherd_id_t)shep);
+    else
+        rc = qthread_spawn(body_v, variant == 2 ? (void *)argbuf : NULL, variant == 2 ? sizeof argbuf : 0, ret, 0, NULL,
                            variant == 1 ? (qthread_shepherd_id_t)shep : NO_SHEPHERD, flags);
     st[1] = STATUS();                       /* right after the spawn returned */
     while (!started0) ctl_wait();           /* the body is now running (held at the gate) */
@@ -104,7 +108,7 @@ static void run_tree(int *order, int norder)
     int n = 0, root = -1;
     for (int i = 0; i < MAXN; i++) if (nd[i].used) { n++; if (nd[i].parent < 0) root = i; }
     qthread_empty(&ctl); nstarted = 0; seqctr = 0;
-    alarm(300);
+    alarm(getenv("C05_ALARM") ? atoi(getenv("C05_ALARM")) : 150);
     qthread_empty(&nd[root].gate);
     if (nd[root].kind == 't') qthread_fork_new_team(body_n, (void *)(intptr_t)root, &nd[root].ret);
     else qthread_fork_new_subteam(body_n, (void *)(intptr_t)root, &nd[root].ret);
